@@ -61,14 +61,27 @@ def _spell(path_idx, v):
 
 
 def gen_program(tape: Tape):
-    nproc = 1 + tape.draw(2, 'nproc')
-    npaths = 1 + tape.draw(2, 'npaths')
-    safe = tape.draw(10, 'safe') < 7
+    focus = tape.draw(6, 'focus')
+    bias = {'shared': 2, 'upgrade': 4, 'nest': 3}
+    if focus == 3:
+        # one process, many readers of one file: fd / pool life-cycle races
+        nproc, npaths, safe = 1, 1, True
+        bias = {'shared': 5, 'upgrade': 6, 'nest': 4}
+    elif focus == 4:
+        # two processes on one file, nested (upgrading) requests
+        nproc, npaths, safe = 2, 1, tape.draw(2, 'safe') == 0
+        bias = {'shared': 3, 'upgrade': 2, 'nest': 2}
+    else:
+        nproc = 1 + tape.draw(2, 'nproc')
+        npaths = 1 + tape.draw(2, 'npaths')
+        safe = tape.draw(10, 'safe') < 7
     threads = []
-    state = {'upgraders': 0}
+    state = {'upgraders': 0, 'bias': bias}
     total_threads = 0
     for p in range(nproc):
         nthr = 1 + tape.draw(3, 'nthr')
+        if focus == 3:
+            nthr = max(nthr, 2)
         for t in range(nthr):
             nreq = 1 + tape.draw(3, 'nreq')
             budget = [nreq]
@@ -84,7 +97,12 @@ def gen_program(tape: Tape):
         while budget[0] > 0:
             items.append(('req', _gen_req(tape, budget, npaths, safe, state, held=())))
         threads.append({'pid': 1, 'name': 'p1.t2', 'items': items})
-    return {'nproc': nproc, 'npaths': npaths, 'safe': safe, 'threads': threads}
+    return {'nproc': nproc, 'npaths': npaths, 'safe': safe, 'threads': threads, 'focus': focus}
+
+
+def _shared(tape, state):
+    b = state['bias']['shared']
+    return tape.draw(b, 'shared') != 0 if b > 2 else bool(tape.draw(2, 'shared'))
 
 
 def _gen_req(tape, budget, npaths, safe, state, held):
@@ -112,7 +130,7 @@ def _gen_req(tape, budget, npaths, safe, state, held):
             if strongest_shared:
                 # holding only shared: exclusive would be an upgrade (a waiting one if
                 # reentrant); allow a single waiting upgrader per program
-                want_ex = tape.draw(4, 'upgrade') == 3
+                want_ex = tape.draw(state['bias']['upgrade'], 'upgrade') == state['bias']['upgrade'] - 1
                 if want_ex and reentrant and state['upgraders'] >= 1:
                     want_ex = False
                 if want_ex and reentrant:
@@ -121,11 +139,11 @@ def _gen_req(tape, budget, npaths, safe, state, held):
             else:
                 shared = bool(tape.draw(2, 'shared'))
         else:
-            shared = bool(tape.draw(2, 'shared'))
+            shared = _shared(tape, state)
             reentrant = bool(tape.draw(2, 'reentrant'))
     else:
         path = tape.draw(npaths, 'path')
-        shared = bool(tape.draw(2, 'shared'))
+        shared = _shared(tape, state)
         reentrant = bool(tape.draw(2, 'reentrant'))
     blocking = tape.draw(4, 'blocking') != 3
     propagate = tape.draw(8, 'propagate') == 7
@@ -134,7 +152,7 @@ def _gen_req(tape, budget, npaths, safe, state, held):
     nhold = tape.draw(3, 'nhold')
     body = [('hold',)] * nhold
     # nested request?
-    while budget[0] > 0 and tape.draw(3, 'nest') == 2:
+    while budget[0] > 0 and tape.draw(state['bias']['nest'], 'nest') == state['bias']['nest'] - 1:
         body = body + [('req', _gen_req(tape, budget, npaths, safe, state,
                                         held + ((path, shared),)))]
         if tape.draw(2, 'hold-after'):
@@ -692,7 +710,7 @@ def budget(tier):
         return {'runs': 1_500_000, 'chunk': 2000, 'selftest_every': 200, 'xproc_runs': 2000,
                 'chunk_timeout': 1200, 'wall_limit': 3 * 3600, 'shrink_evals': 3000,
                 'shrink_seconds': 240}
-    return {'runs': 24_000, 'chunk': 250, 'selftest_every': 40, 'xproc_runs': 300,
+    return {'runs': 40_000, 'chunk': 400, 'selftest_every': 40, 'xproc_runs': 300,
             'chunk_timeout': 600, 'wall_limit': 1500, 'shrink_evals': 1500, 'shrink_seconds': 60}
 
 
